@@ -56,6 +56,9 @@ BUILD = {
     "b_chain": c04.HAND["c04_save_use_chain"],
     "b_title_dump": c04.HAND["c04_title_dump"],
     "b_isotope_sol": "SOLUTION 11\n pH 7.5\n Ca 1\n C 2 charge\n -isotope 13C -12.0 1.0\n -isotope 34S 9.5 0.5\n S(6) 0.3\nSOLUTION 12\n pH 6.9\n Ca 2\n C 4\n -isotope 13C -7.0 1.4\nEND\n",
+    "b_related": S1 + "EQUILIBRIUM_PHASES 13\n Calcite 0 0.05\n Goethite 0 0.01\nKINETICS 13\n dec\n -formula NaCl 1\n -m0 0.02\n -parms 2e-4\n -steps 500 1000\n"
+                 "EXCHANGE 13\n X Calcite equilibrium_phase 0.05\n Y dec kinetic_reactant 0.25\n -equilibrate 1\nSURFACE 13\n Hfo_w Goethite equilibrium_phase 0.2 5.3e4\n -equilibrate 1\n"
+                 "SAVE solution 13\nSAVE exchange 13\nSAVE surface 13\nSAVE equilibrium_phases 13\nEND\n",
     "b_redox": "SOLUTION 10\n pH 6.5\n pe 2\n Fe(2) 0.1\n Fe(3) 0.002\n N(5) 0.4\n N(-3) 0.05\n S(6) 1\n S(-2) 0.001\n Na 3\n Cl 2 charge\n -water 0.7\nEND\n",
 }
 BUILD_DB = {k: "phreeqc" for k in BUILD}
@@ -63,7 +66,7 @@ BUILD["b_iso"] = None
 BUILD_DB["b_iso"] = "iso"
 BUILD["b_pitzer"] = c07.STICKY["h_pz"] + "USE solution 1\nEQUILIBRIUM_PHASES 1\n Halite 0 0\n Gypsum 0 1\nSAVE solution 2\nSAVE equilibrium_phases 2\nEND\n"
 BUILD_DB["b_pitzer"] = "pitzer"
-PROLOGUE = {"phreeqc": "RATES\n dec\n -start\n10 SAVE parm(1) * M * TIME\n -end\n grow\n -start\n10 SAVE -parm(1) * TIME\n -end\n decay\n -start\n 10 rate = parm(1) * TOT(\"Na\")\n 20 moles = rate * TIME\n 30 SAVE moles\n -end\n"
+PROLOGUE = {"phreeqc": "EXCHANGE_MASTER_SPECIES\n Y Y-\nEXCHANGE_SPECIES\n Y- = Y-\n log_k 0\n Na+ + Y- = NaY\n log_k 0\n K+ + Y- = KY\n log_k 0.7\n Ca+2 + 2Y- = CaY2\n log_k 0.8\nRATES\n dec\n -start\n10 SAVE parm(1) * M * TIME\n -end\n grow\n -start\n10 SAVE -parm(1) * TIME\n -end\n decay\n -start\n 10 rate = parm(1) * TOT(\"Na\")\n 20 moles = rate * TIME\n 30 SAVE moles\n -end\n"
                         " cc\n -start\n 10 si_cc = SI(\"Calcite\")\n 20 rate = parm(1) * (1 - 10^si_cc)\n 30 moles = rate * TIME\n 40 SAVE moles\n -end\nEND\n",
             "iso": "", "pitzer": ""}
 SEL = "SELECTED_OUTPUT 9\n -reset false\n -high_precision true\n -solution\n -pH\n -alkalinity\n -ionic_strength\n -water\n -charge_balance\n -totals Ca Na C Cl Fe S Sr\n -si Calcite\n"
@@ -280,6 +283,9 @@ def check_plan(ctx, plan):
             if x.body() != y.body():
                 kd = x.kind
                 break
+        import c14
+        if c14.numeric_equal(norm_ws(c04.mask_dump(D1)), norm_ws(c04.mask_dump(D2)), tol=1e-12):
+            kd = "last_digit:" + kd
         rep.viol("fixed_point", "C10:not_a_fixed_point:" + kd, "%s: dump(restore(D')) differs from D' after one cycle: %s" % (desc, first_diff(c04.mask_dump(D1), c04.mask_dump(D2))))
     if raw.keyset(D1) != raw.keyset(D):
         rep.viol("fixed_point", "C10:entities_lost", "%s: entities in the checkpoint %r, after restore %r" % (desc, sorted(raw.keyset(D) - raw.keyset(D1)), sorted(raw.keyset(D1) - raw.keyset(D))))
